@@ -881,6 +881,41 @@ func c30PickU32(r *kit.Rand, xs []uint32, def uint32) uint32 {
 func c30GenRTP(r *kit.Rand, c *c30PktCtx) (pkt []byte, kind string) { //nolint:cyclop,gocognit
 	var ssrc uint32
 	var pt uint8
+	if len(c.RTX) > 0 && r.Chance(0.06) {
+		// directed class: a tiny packet on a declared repair (RTX) SSRC whose padding count lies about the packet —
+		// 0..2 payload bytes, padding bit set, last byte larger than what follows the header (the RTX unwrapping code
+		// computes "payload length minus padding" from exactly these bytes)
+		ssrc = kit.Pick(r, c.RTX)
+		pt = uint8(r.Intn(128)) //nolint:gosec
+		if len(c.RTXPT) > 0 && r.Chance(0.8) {
+			pt = kit.Pick(r, c.RTXPT)
+		}
+		ncsrc := 0
+		if r.Chance(0.2) {
+			ncsrc = r.Range(1, 3)
+		}
+		b := make([]byte, 12, 64)
+		b[0] = 0x80 | 0x20 | byte(ncsrc)
+		b[1] = pt
+		binary.BigEndian.PutUint16(b[2:], c.nextSeq(r, ssrc))
+		binary.BigEndian.PutUint32(b[4:], r.Uint32())
+		binary.BigEndian.PutUint32(b[8:], ssrc)
+		for i := 0; i < ncsrc; i++ {
+			b = binary.BigEndian.AppendUint32(b, r.Uint32())
+		}
+		if r.Chance(0.3) { // empty one-byte-header extension block
+			b[0] |= 0x10
+			b = append(b, 0xBE, 0xDE, 0, byte(r.Intn(2)))
+			if b[len(b)-1] == 1 {
+				b = append(b, 0, 0, 0, 0)
+			}
+		}
+		n := r.Range(1, 3)
+		b = append(b, r.Bytes(n)...)
+		b[len(b)-1] = byte(kit.Pick(r, []int{n + 1, n + 2, 13, 64, 128, 200, 255}))
+
+		return b, "rtp-rtx-tiny-lying-padding"
+	}
 	switch x := r.Intn(100); {
 	case x < 25:
 		kind, ssrc = "rtp-declared", c30PickU32(r, c.Declared, 1)
